@@ -245,6 +245,15 @@ var Layouts = []Layout{
 	{Parts: true, Name: "css-parts", Top: true, Pre: "", Post: "\n\tcolor: red;\n}\n", Toks: []string{`css`, `k`, `(`, `)`, `{`}},
 	{Parts: true, Name: "css-prop-parts", Top: true, Pre: "css k() {\n\t", Post: "\n}\n", Toks: []string{`color`, `:`, `red`, `;`}},
 	{Parts: true, Name: "script-parts", Top: true, Pre: "", Post: "\n\tconsole.log(a);\n}\n", Toks: []string{`script`, `j`, `(`, `a string`, `)`, `{`}},
+	// braces inside a signature; pairs of declarations that agree up to the brace and have the same length
+	{Name: "params-brace", Top: true, Pre: "templ L(", Post: ") {\n\t<i></i>\n}\n", Toks: []string{`v interface{}`, `,`, `a string`}},
+	{Name: "params-brace-other", Top: true, Pre: "templ L(", Post: ") {\n\t<i></i>\n}\n", Toks: []string{`v interface{}`, `,`, `b string`}},
+	{Name: "params-struct", Top: true, Pre: "templ L(", Post: ") {\n\t<i>{ n }</i>\n}\n", Toks: []string{`m map[string]struct{}`, `,`, `n string`}},
+	{Name: "params-struct-other", Top: true, Pre: "templ L(", Post: ") {\n\t<i>{ k }</i>\n}\n", Toks: []string{`m map[string]struct{}`, `,`, `k string`}},
+	{Name: "receiver-brace", Top: true, Pre: "templ (", Post: ") M(a string) {\n\t<i></i>\n}\n", Toks: []string{`r`, `recv`}},
+	{Name: "receiver-brace-other", Top: true, Pre: "templ (", Post: ") M(b string) {\n\t<i></i>\n}\n", Toks: []string{`r`, `recv`}},
+	{Name: "css-params", Top: true, Pre: "css k(", Post: ") {\n\tcolor: red;\n}\n", Toks: []string{`v interface{}`, `,`, `a string`}},
+	{Name: "css-params-other", Top: true, Pre: "css k(", Post: ") {\n\tcolor: red;\n}\n", Toks: []string{`v interface{}`, `,`, `b string`}},
 	{Name: "params", Top: true, Pre: "templ L(", Post: ") {\n\t<i></i>\n}\n", Toks: []string{`s`, `string`, `,`, `b`, `bool`}},
 	{Name: "params-comma", Top: true, Pre: "templ L(", Post: ") {\n\t<i></i>\n}\n", Toks: []string{`s, t string`, `,`, `b bool`, `,`}},
 	{Name: "css-prop", Top: true, Pre: "css k(w string) {\n\tcolor: red;\n\twidth: {", Post: "};\n}\n", Toks: []string{`up(`, `w`, `)`}},
